@@ -1,5 +1,6 @@
 use super::{
-    AuxColumnBuilder, Felt, FieldElement, MainTrace, DYN, END, HALT, JOIN, LOOP, ONE, REPEAT, SPLIT,
+    AuxColumnBuilder, Felt, FieldElement, MainTrace, CALL, DYN, END, HALT, JOIN, LOOP, ONE, REPEAT,
+    SPLIT, SYSCALL,
 };
 
 // BLOCK HASH TABLE COLUMN BUILDER
@@ -50,6 +51,7 @@ impl<E: FieldElement<BaseField = Felt>> AuxColumnBuilder<E> for BlockHashTableCo
             LOOP => get_block_hash_table_inclusion_multiplicand_loop(main_trace, i, alphas),
             REPEAT => get_block_hash_table_inclusion_multiplicand_repeat(main_trace, i, alphas),
             DYN => get_block_hash_table_inclusion_multiplicand_dyn(main_trace, i, alphas),
+            CALL | SYSCALL => get_block_hash_table_inclusion_multiplicand_call(main_trace, i, alphas),
             _ => E::ONE,
         }
     }
@@ -179,6 +181,25 @@ fn get_block_hash_table_inclusion_multiplicand_repeat<E: FieldElement<BaseField 
         + alphas[4].mul_base(state[2])
         + alphas[5].mul_base(state[3])
         + alphas[7]
+}
+
+/// Computes the multiplicand representing the inclusion of a new row representing the callee of a
+/// CALL or SYSCALL block to the block hash table. The hash of the callee is in the first half of
+/// the decoder hasher state.
+fn get_block_hash_table_inclusion_multiplicand_call<E: FieldElement<BaseField = Felt>>(
+    main_trace: &MainTrace,
+    i: usize,
+    alphas: &[E],
+) -> E {
+    let a_prime = main_trace.addr(i + 1);
+    let state = main_trace.decoder_hasher_state_first_half(i);
+
+    alphas[0]
+        + alphas[1].mul_base(a_prime)
+        + alphas[2].mul_base(state[0])
+        + alphas[3].mul_base(state[1])
+        + alphas[4].mul_base(state[2])
+        + alphas[5].mul_base(state[3])
 }
 
 /// Computes the multiplicand representing the inclusion of a new row representing a DYN block
